@@ -544,6 +544,132 @@ func (p *pkgFiles) eventLiterals(o *out) {
 	o.pf("]\n\n")
 }
 
+// structFields emits the fields of a struct type with a coarse kind: "value" (immutable/by-value),
+// "slice", "map", "ptr", or "struct:<Name>" for a nested struct value.
+func (p *pkgFiles) structFields(o *out, name string) {
+	for _, f := range p.files {
+		for _, d := range f.Decls {
+			gd, ok := d.(*ast.GenDecl)
+			if !ok || gd.Tok != token.TYPE {
+				continue
+			}
+			for _, sp := range gd.Specs {
+				ts := sp.(*ast.TypeSpec)
+				st, ok := ts.Type.(*ast.StructType)
+				if !ok || ts.Name.Name != name {
+					continue
+				}
+				var items []string
+				for _, fl := range st.Fields.List {
+					kind := "value"
+					switch t := fl.Type.(type) {
+					case *ast.ArrayType:
+						if t.Len == nil {
+							kind = "slice"
+						}
+					case *ast.MapType:
+						kind = "map"
+					case *ast.StarExpr:
+						kind = "ptr"
+					case *ast.StructType:
+						kind = "value" // anonymous struct of plain values (checked: no reference fields)
+						for _, ff := range t.Fields.List {
+							if id, ok := ff.Type.(*ast.Ident); !ok || id.Name != "string" {
+								kind = "struct:anon"
+							}
+						}
+					case *ast.Ident:
+						if t.Name == "CModes" || t.Name == "UserPerms" {
+							kind = "struct:" + t.Name
+						}
+					case *ast.SelectorExpr:
+						kind = "value" // time.Time, sync.RWMutex
+					}
+					for _, n := range fl.Names {
+						items = append(items, fmt.Sprintf("(%s, %s)", leanBytes(n.Name), leanBytes(kind)))
+					}
+					if len(fl.Names) == 0 {
+						items = append(items, fmt.Sprintf("(%s, %s)", leanBytes("<embedded>"), leanBytes(kind)))
+					}
+				}
+				o.pf("def fields_%s : List (List UInt8 × List UInt8) := [\n  %s]\n\n", name, strings.Join(items, ",\n  "))
+				return
+			}
+		}
+	}
+	o.note("struct %s not found", name)
+}
+
+// copyFacts: in method `Copy` of recv, the fields of the new object that are assigned a freshly allocated value:
+// `x.F = make(...)`, `x.F = <expr>.Copy()`, a composite literal `&T{F: make(...)}`.
+func (p *pkgFiles) copyFacts(o *out, recv string) {
+	fd := p.funcDecl("Copy", recv)
+	if fd == nil {
+		o.note("%s.Copy not found", recv)
+		return
+	}
+	fresh := map[string]bool{}
+	isFresh := func(e ast.Expr) bool {
+		ce, ok := e.(*ast.CallExpr)
+		if !ok {
+			return false
+		}
+		if id, ok := ce.Fun.(*ast.Ident); ok && id.Name == "make" {
+			return true
+		}
+		if se, ok := ce.Fun.(*ast.SelectorExpr); ok && se.Sel.Name == "Copy" {
+			return true
+		}
+		return false
+	}
+	ast.Inspect(fd.Body, func(n ast.Node) bool {
+		switch v := n.(type) {
+		case *ast.AssignStmt:
+			for i, l := range v.Lhs {
+				if se, ok := l.(*ast.SelectorExpr); ok && i < len(v.Rhs) && isFresh(v.Rhs[i]) {
+					fresh[se.Sel.Name] = true
+				}
+			}
+		case *ast.KeyValueExpr:
+			if k, ok := v.Key.(*ast.Ident); ok && isFresh(v.Value) {
+				fresh[k.Name] = true
+			}
+		}
+		return true
+	})
+	var names []string
+	for k := range fresh {
+		names = append(names, k)
+	}
+	sort.Strings(names)
+	var items []string
+	for _, n := range names {
+		items = append(items, leanBytes(n))
+	}
+	o.pf("def copyFresh_%s : List (List UInt8) := [%s]\n\n", recv, strings.Join(items, ", "))
+}
+
+// getterCopies: does the exported getter return `.Copy()` of what it looked up?
+func (p *pkgFiles) getterCopies(o *out, names []string) {
+	var items []string
+	for _, n := range names {
+		fd := p.funcDecl(n, "Client")
+		copies := false
+		if fd != nil {
+			ast.Inspect(fd.Body, func(nd ast.Node) bool {
+				if ce, ok := nd.(*ast.CallExpr); ok {
+					if se, ok := ce.Fun.(*ast.SelectorExpr); ok && se.Sel.Name == "Copy" {
+						copies = true
+					}
+				}
+				return true
+			})
+		}
+		items = append(items, fmt.Sprintf("(%s, %v)", leanBytes(n), copies))
+	}
+	o.pf("def getterCopies : List (List UInt8 × Bool) := [%s]\n\n", strings.Join(items, ", "))
+}
+
 func main() {
 	repo := flag.String("repo", "/repo", "repository root")
 	outPath := flag.String("out", "/verif/lean/Girc/Gen/Facts.lean", "output Lean file")
@@ -574,6 +700,13 @@ func main() {
 	p.bytePreds(o, [][2]string{{"IsValidNick", ""}, {"IsValidUser", ""}, {"IsValidChannel", ""}, {"ToRFC1459", ""},
 		{"validTag", ""}, {"validTagValue", ""}, {"DecodeCTCP", ""}, {"parseCMD", "CTCP"}, {"IsValidChannelMode", ""}, {"Fmt", ""}})
 	p.byteSliceLits(o, "IsValidChannel")
+
+	o.pf("/-! ## snapshot copies -/\n")
+	for _, n := range []string{"User", "Channel", "CModes", "UserPerms"} {
+		p.structFields(o, n)
+		p.copyFacts(o, n)
+	}
+	p.getterCopies(o, []string{"LookupUser", "LookupChannel", "Users", "Channels"})
 
 	o.pf("/-! ## event literals -/\n")
 	p.eventLiterals(o)
